@@ -199,12 +199,12 @@ type regOp struct {
 }
 
 type regScenario struct {
-	ID      int        `json:"id"`
-	Backing string     `json:"backing"` // mem | memat | file
-	Coords  [][2]int   `json:"coords"`
-	Ops     []regOp    `json:"ops"`
-	Probes  string     `json:"probes"` // none | prefix | torn
-	Origin  string     `json:"origin"`
+	ID      int      `json:"id"`
+	Backing string   `json:"backing"` // mem | memat | file
+	Coords  [][2]int `json:"coords"`
+	Ops     []regOp  `json:"ops"`
+	Probes  string   `json:"probes"` // none | prefix | torn
+	Origin  string   `json:"origin"`
 }
 
 var regSizes = []int{9, 10, 100, 4091, 4092, 4093, 4094, 8187, 8188, 8189, 12283, 12284, 12285, 5000, 9000, 2000}
@@ -318,18 +318,18 @@ func genRegScenario(seed int64, id int, nops int, crash bool) regScenario {
 // ------------------------------------------------------------------ executor
 
 type regExec struct {
-	sc     regScenario
-	tr     *vk.Trace
-	f      *recFile
-	rws    io.ReadWriteSeeker
-	r      *region.Region
-	nver   int
-	slotOf map[int]int // header slot -> chunk id
-	probes int
-	tmp    string
-	rng    *rand.Rand
+	sc            regScenario
+	tr            *vk.Trace
+	f             *recFile
+	rws           io.ReadWriteSeeker
+	r             *region.Region
+	nver          int
+	slotOf        map[int]int // header slot -> chunk id
+	probes        int
+	tmp           string
+	rng           *rand.Rand
 	maxTornProbes int
-	classes map[string]int
+	classes       map[string]int
 }
 
 func (x *regExec) ev(m map[string]any) {
